@@ -128,6 +128,9 @@ func Groups(quick bool) []group {
 	}
 	for _, wk := range sortedKeys(wf4) {
 		p := wf4[wk]
+		if wk == "wf-fan3" && !quick {
+			continue // six arcs: part of the enumerated flat shapes of the thorough tier
+		}
 		gs = append(gs, group{name: "wf4/" + wk, mode: p.Mode, traces: func(emit func(t *Trace)) {
 			for _, cfg := range intConfigs(nodeKeys(p), intMax) {
 				for _, pat := range patterns {
